@@ -304,7 +304,7 @@ def run_property(pid, tier, seed, repo, root, t0):
             print("NO-VIOLATION-FOUND property=%s tier=%s (deductive check undecided for the current text; bounded search found nothing) wall=%.1fs" % (pid, tier, wall))
             return 0
         return 2
-    print("OK property=%s tier=%s obligations=%d discharged=%d bounded_standins=%d/%d%s known_findings=%d wall=%.1fs" % (
+    print("OK property=%s tier=%s obligations=%d discharged=%d bounded=%d/%d%s known_findings=%d wall=%.1fs" % (
         pid, tier, cov["obligations"], cov["discharged"], cov["bounded_discharged"], cov["bounded_obligations"],
         " (BOUNDED ONLY: nothing proved)" if cov["obligations"] == 0 else "", len(known_lines), wall))
     return 0
